@@ -11,9 +11,12 @@ def bytesOfList (l : List Nat) : ByteArray := l.foldl (fun acc x => acc.push (UI
 
 def defaultParity (d p : Nat) : Option (Mat GF256 p d) :=
   if d = 0 || p = 0 || d + p > 256 then none else
-  match buildMatrix GF256.ofNat d (d + p) (Nat.le_add_right d p) with
-  | some G => some (parityPart p rfl G)
-  | none => none
+  -- L1 builder for small d; the proved-equal Lagrange closed form (C01_default / C03_default_entry) above that
+  if d ≤ 40 then
+    match buildMatrix GF256.ofNat d (d + p) (Nat.le_add_right d p) with
+    | some G => some (parityPart p rfl G)
+    | none => none
+  else some (lagrangeParity d p)
 
 /-- the in-memory codec on one block -/
 def blockCodec (d p : Nat) : St.BlockCodec :=
@@ -81,7 +84,7 @@ def parseFault (s : String) : Fault :=
 def mkReaders (n : Nat) (ft : Fault) (content : Nat → List Nat) : List (Option St.Rd) :=
   (List.range n).map fun i =>
     if ft.kind == "nilr" && ft.idx == i then none
-    else some ⟨content i, if ft.kind == "r" && ft.idx == i then some ft.at_ else none⟩
+    else some ⟨content i, if (ft.kind == "r" || ft.kind == "rw" || ft.kind == "ru") && ft.idx == i then some ft.at_ else none⟩
 
 def mkWriters (n : Nat) (ft : Fault) (wanted : Nat → Bool) : List (Option St.Wr) :=
   (List.range n).map fun j =>
